@@ -110,6 +110,11 @@ class MeshDG:
     def element_finder(self, *args, **kwargs):
         raise NotImplementedError
 
+    @classmethod
+    def init_refdom(cls):
+        # a single cell has no periodic identification: the ordinary mesh
+        return cls.__bases__[-1].init_refdom()
+
     # the inherited versions index the point array with vertex numbers
 
     def _uniform(self, *args, **kwargs):
